@@ -217,6 +217,14 @@ def run(res):
                 counts['fkm_scale'] += 1
                 if sc != mapvals(base, lambda v: a * v, kind):
                     viol('scaling the signal by a > 0 does not scale what the FKM detector reports', detector=kind, signal=s, a=a)
+            # extreme positive scales (powers of two: exact): the result must scale with them too
+            if j % 4 == 0:
+                ax = rng.choice([2.0 ** -560, 2.0 ** 400])
+                ext = run_impl(kind, [ax * x for x in fl])
+                counts['extreme_scale'] = counts.get('extreme_scale', 0) + 1
+                if ext != mapvals(base, lambda v: ax * v, kind):
+                    viol('scaling the signal by a positive factor (%.3g) does not scale all reported values / keep the indices' % ax,
+                         detector=kind, signal=s, a=ax)
             if len(s) >= 2:
                 s2, phi = refine(rng, s)
                 counts['refine'] += 1
